@@ -12,6 +12,18 @@
    Quantifiers: every sequence of stores, every schedule (placement of any number of commits
    between any two consecutive reads), every query, every key order of the iterator.
 
+   Transaction-building calls.  Model: Sched/Build.v — AutoCreateRawTransaction, CreateStakingTransaction,
+   CreateBindingTransaction and the Estimate*TxFee calls are not one read transaction but a SEQUENCE of them:
+   one per coin-selection round (each reads ONE snapshot: C17_single_boundary), one look-up of the previous
+   transaction per selected coin for the size estimate of every round, one more per input when the inputs are
+   added; [rd k] is the committed store serving read transaction k.  As in the code every round selects from
+   scratch and the transaction is built from the last round's selection.  [keep = true] is the seeded variant
+   (the picks of earlier rounds are kept, a later read only tops them up).  The judged predicate [tx_ok_at]
+   (no input twice, every input an unspent / mature / standard / unreserved coin of the wallet at the boundary,
+   inputs - outputs = reported fee) is the function the check evaluates on the implementation's transactions.
+   Quantifiers: every function [rd] (any history of commits placed anywhere between the read transactions),
+   every request, every reservation list, every node chain.
+
    Data-race half.  Sched/Locks.v over the table coq/Gen/Locks.v that translate/locks regenerates
    from the Go source on every run: (field, function, read/write, thread role, locks held) for the
    fields of NtfnsHandler, WalletManager, KeystoreManager, AddrManager, UtxoStore.
@@ -22,6 +34,8 @@
 From Coq Require Import List ZArith NArith Bool String.
 Import ListNotations.
 Require Import MW.Ledger.Model MW.Sched.Reads MW.Sched.ReadsProofs MW.Gen.Locks MW.Sched.Locks MW.Sched.LocksProofs.
+Require Import MW.Sched.Build MW.Sched.BuildProofs.
+Require MW.Tx.Select MW.Tx.Fee.
 
 (* repaired semantics: whatever is committed while the query runs, and wherever between its reads,
    the answer (and the number of reads) is that of the single block boundary at which the
@@ -68,6 +82,116 @@ Theorem C17_stale_height_refuted :
 Proof. exact refuted_stale. Qed.
 Print Assumptions C17_stale_height_refuted.
 
+(* ---- transaction-building calls (several read transactions) *)
+
+(* whatever stores serve the read transactions of a transaction-building call, a transaction that
+   comes back is a correct answer at ONE of them — the store kb of the last selection round, a read
+   transaction of the call —: no input twice, every input one of the coins eligible there, inputs -
+   outputs = reported fee; the fee covers the user's / the relay minimum and the relay fee of the
+   built size; every input was looked up successfully in the two passes after kb; k = kb + 1 + 2*inputs *)
+Theorem C17_build_single_boundary : forall ord w sel reserved nd rd q k s ch fee,
+  (forall j, store_ok (rd j) w) ->
+  build_call ord w sel reserved nd rd false q = (k, BTx s ch fee) ->
+  exists kb, (kb < k)%nat /\ k = (S kb + List.length s + List.length s)%nat /\
+    tx_ok_at (cands ord w sel reserved (rd kb)) (map cr_op s) (q_out q + ch) fee = true /\
+    (forall c, In c s -> In c (cands ord w sel reserved (rd kb))) /\
+    NoDup (map cr_op s) /\ Select.sum_amt cr_amount s = (q_out q + ch + fee)%Z /\
+    (init_target (q_userfee q) <= fee)%Z /\ (req_fee q (List.length s) ch <= fee)%Z /\ (ch = 0%Z \/ (Fee.min_relay <= ch)%Z) /\
+    (forall i c, nth_error s i = Some c ->
+       lookup_ok nd (rd (S kb + i)%nat) (cr_op c) = true /\ lookup_ok nd (rd (S kb + List.length s + i)%nat) (cr_op c) = true).
+Proof. exact build_single_boundary. Qed.
+Print Assumptions C17_build_single_boundary.
+
+(* ... and at that boundary every input is spendable: mature at its tip (no wrap-around), its credit
+   record not spent, standard class, not reserved by an earlier draft *)
+Theorem C17_build_inputs_spendable : forall ord w sel reserved nd rd q k s ch fee,
+  (forall j, store_ok (rd j) w) -> (forall j, heights_ok (rd j)) ->
+  build_call ord w sel reserved nd rd false q = (k, BTx s ch fee) ->
+  exists kb, (kb < k)%nat /\
+    forall c, In c s -> immature_at (rd kb) c = false /\ cr_spent c = false /\ cr_class c = CStd /\ ~ In (cr_op c) reserved.
+Proof. exact build_inputs_spendable. Qed.
+Print Assumptions C17_build_inputs_spendable.
+
+(* in terms of schedules over the committed stores: the boundary is a commit index between the one
+   at which the call began and the one at which its last read transaction began, and the judged
+   function finds one *)
+Theorem C17_build_sched_single_boundary : forall ord w sel reserved nd ss sc q k s ch fee,
+  monotone sc = true -> (forall j, store_ok (store_at ss j) w) ->
+  build_sched ord w sel reserved nd false ss sc q = (k, BTx s ch fee) ->
+  (exists b, (idx sc 0 <= b <= idx sc (k - 1))%nat /\
+     tx_ok_at (cands ord w sel reserved (store_at ss b)) (map cr_op s) (q_out q + ch) fee = true) /\
+  tx_boundary ord w sel reserved ss (idx sc 0) (idx sc (k - 1)) (map cr_op s) (q_out q + ch) fee <> None.
+Proof. exact build_sched_single_boundary. Qed.
+Print Assumptions C17_build_sched_single_boundary.
+
+(* an insufficient-funds refusal is the refusal of ONE store of the call: there the K largest
+   eligible coins do not cover the outputs, the largest fee target any pass can set and one
+   MinRelayTxFee of dust slack *)
+Theorem C17_build_refusal_boundary : forall ord w sel reserved nd rd q k ov nmax,
+  (forall j, (j < k)%nat -> amounts_ok (rd j)) ->
+  (forall j, (j < k)%nat -> (Z.of_nat (List.length (cands ord w sel reserved (rd j))) <= nmax)%Z) ->
+  (0 <= q_out q)%Z -> (0 <= q_userfee q)%Z -> (0 <= q_nout q)%Z -> (0 <= q_payload q)%Z ->
+  build_call ord w sel reserved nd rd false q = (k, BRefused ov) ->
+  exists kb, (kb < k)%nat /\ refusal_ok_at (cands ord w sel reserved (rd kb)) q nmax = true.
+Proof. exact build_refusal_boundary. Qed.
+Print Assumptions C17_build_refusal_boundary.
+
+Theorem C17_build_sched_refusal_boundary : forall ord w sel reserved nd ss sc q k ov,
+  monotone sc = true -> (forall j, amounts_ok (store_at ss j)) ->
+  (0 <= q_out q)%Z -> (0 <= q_userfee q)%Z -> (0 <= q_nout q)%Z -> (0 <= q_payload q)%Z ->
+  build_sched ord w sel reserved nd false ss sc q = (k, BRefused ov) ->
+  refusal_boundary ord w sel reserved ss (idx sc 0) (idx sc (k - 1)) q <> None.
+Proof. exact build_sched_refusal_boundary. Qed.
+Print Assumptions C17_build_sched_refusal_boundary.
+
+(* the fuelled loops of the model are the Go loops: the fuel is never used up *)
+Theorem C17_build_call_fuel : forall ord w sel reserved nd rd q k r,
+  (0 <= q_nout q)%Z -> (0 <= q_payload q)%Z -> build_call ord w sel reserved nd rd false q = (k, r) -> r <> BFuel.
+Proof. exact build_call_fuel. Qed.
+Print Assumptions C17_build_call_fuel.
+
+(* SEEDED VARIANT (keep the picks of earlier rounds, top up from a later read), refuted: stores
+   produced by the Ledger model, a monotone schedule (first selection, block 7 spending the picked
+   coin and paying the wallet, top-up), and a transaction that comes back spending the coin AND the
+   coin its spender created: a correct answer at no boundary *)
+Theorem C17_build_single_boundary_refuted :
+  exists (ord : N -> N) (w : N) (sel : N -> bool) (reserved : list op) (nd : node) (ss : list wstate) (sc : list nat)
+         (q : breq) (k : nat) (s : list coinrow) (ch fee : Z),
+    monotone sc = true /\ (forall j, store_ok (store_at ss j) w) /\
+    build_sched ord w sel reserved nd true ss sc q = (k, BTx s ch fee) /\
+    (forall j, (j < List.length ss)%nat ->
+       tx_ok_at (cands ord w sel reserved (store_at ss j)) (map cr_op s) (q_out q + ch) fee = false) /\
+    tx_boundary ord w sel reserved ss (idx sc 0) (idx sc (k - 1)) (map cr_op s) (q_out q + ch) fee = None.
+Proof. exact build_keep_refuted. Qed.
+Print Assumptions C17_build_single_boundary_refuted.
+
+(* CODE AS IT IS, what C17_build_refusal_boundary does not say: the amount asked in the refusing read
+   transaction carries the dust adjustment (or the fee target) decided on ANOTHER store.  The call
+   refuses (2 read transactions) although, run alone before block 7, it spends 1:0 and 1:1, and run
+   alone after it, 20:0; the refusal is right at boundary 1 only with the slack of refusal_ok_at *)
+Theorem C17_build_refusal_carried_refuted :
+  monotone [0; 1]%nat = true /\ List.length br_ss = 2%nat /\
+  build_sched idN 1 bw_all [] br_node false br_ss [0; 1]%nat bw_q = (2%nat, BRefused false) /\
+  (exists s ch, build_sched idN 1 bw_all [] br_node false br_ss [0]%nat bw_q = (6%nat, BTx s ch 10000) /\
+                map cr_op s = [(1%N, 0%N); (1%N, 1%N)]) /\
+  (exists s, build_sched idN 1 bw_all [] br_node false br_ss [1]%nat bw_q = (3%nat, BTx s 0 10000) /\
+             map cr_op s = [(20%N, 0%N)]) /\
+  refusal_boundary idN 1 bw_all [] br_ss 0 1 bw_q = Some 1%nat.
+Proof. exact build_refusal_carried_refuted. Qed.
+Print Assumptions C17_build_refusal_carried_refuted.
+
+(* explicit inputs (CreateRawTransaction): nothing is selected; every input is looked up once per pass
+   (constructTxIn, EstimateManualTxFee without and with change).  While blocks are only connected, the
+   inputs of a successful call can all be looked up in the store of its last read transaction.
+   (With reorganisations in between the statement needs more than the three commits the check places:
+   an input that leaves the chain makes a later pass fail.) *)
+Theorem C17_manual_single_boundary_connects : forall nd rd ins rounds k1,
+  (forall j j' o, (j <= j')%nat -> lookup_ok nd (rd j) o = true -> lookup_ok nd (rd j') o = true) ->
+  manual_lookups nd rd (S rounds) 0 ins = (k1, true) ->
+  forall o, In o ins -> lookup_ok nd (rd (k1 - 1)%nat) o = true.
+Proof. exact manual_single_boundary_connects. Qed.
+Print Assumptions C17_manual_single_boundary_connects.
+
 (* every pair of conflicting accesses of the generated table shares a mutex (one side
    exclusively), or is ordered by the suspend/resume hand-shake, or its writer is one of the
    listed unprotected (variable, function) sites *)
@@ -102,5 +226,7 @@ Print Assumptions C17_lock_discipline_found_refuted.
 (* non-vacuity *)
 Example C17_ex_witness_stores_ok : forall j, (j < 3)%nat -> heights_ok (store_at w1_ss j).
 Proof. exact w1_heights_ok. Qed.
+Example C17_ex_build_witness_stores_ok : forall j, store_ok (store_at bw_ss j) 1.
+Proof. exact bw_stores_ok. Qed.
 Example C17_ex_table_nonempty : (100 <? Z.of_nat (List.length lock_table))%Z = true.
 Proof. vm_compute. reflexivity. Qed.
